@@ -75,7 +75,7 @@ type scen struct {
 	Identity  bool              `json:"identity_ok"`
 	Expired   bool              `json:"expired"`
 	TsOK      bool              `json:"timestamp_ok"`
-	RevMode   int               `json:"revocation"` // 0 ok, 1 revoked, 2 unknown, 3 validator error, 4 one result too few, 5 a nil entry, 6 one result too many (all OK)
+	RevMode   int               `json:"revocation"` // 0 ok, 1 revoked, 2 unknown, 3 validator error, 4 one result too few, 5 a nil entry, 6 one result too many (all OK), 7 intermediate unknown, 8 root unknown, 9 intermediate revoked, 10 leaf OK + CAs non-revokable (passes), 11 leaf non-revokable + root revoked
 	PM        int               `json:"pm"`         // 0 nil, 1 not installed, 2 metadata error, 3 plugin
 	Version   string            `json:"plugin_version,omitempty"`
 	Caps      []string          `json:"caps,omitempty"` // TI, Rev, Other
@@ -166,7 +166,7 @@ func run(a *Args) error {
 	// contract-free oracle (acceptance rule, what is performed, what the plugin is asked, truthful results) on ALL inputs
 	prelude := "From NV Require Import Base Regex Generated C02_Levels VerifyCore C02_Model C02_Struct C02_Versions.\nOpen Scope string_scope.\n"
 	w := NewCaseWriter(a, "C02", prelude, "case", "run_all")
-	w.Rule = "scenarios realised on the real verifier.Verify. Family table: every enforcement map reachable from {strict,permissive,audit} x legal overrides (24 maps, a random (level, override) representative each) x every subset of simultaneously failing native validations {trust store authenticity, identity, expiry, certificate time, revocation} (quick) resp. the full product {anchor found, load error, not anchored} x identity x expired x certificate time x revocation {ok, revoked, unknown, validator error} (thorough) x plugin situation {none, not installed, version too low, no verification capability, trusted-identity, revocation, both} x verdicts {success, failure, missing} x critical attributes {none, processed, unprocessed}; the cells that differ only in the map form a group on which monotonicity of acceptance is checked directly. Family random: malformed plugin headers, blank names, missing manager, metadata error, invalid versions, capability orders with foreign capabilities, plugin errors, nil verdict entries, non-critical attributes, integer-labelled critical attributes (COSE), corrupted envelopes, both envelope formats. Family versions: (plugin version, demanded minimum) pairs around SemVer precedence. Family corpus: the fixed defects and the known finding. Family illegal: level/override combinations GetVerificationLevel must refuse. Family duplicates: a verification capability declared several times (outside wf_sc; judged by the contract-free oracle spec_all). Family revshape: validator answers with a result too few / too many / a nil entry (fix d78db00) under enforce, log, skip and with a revocation plugin. non-trivial = at least one failed validation or a plugin header / extended attribute present; distinct = distinct scenario tuples"
+	w.Rule = "scenarios realised on the real verifier.Verify. Family table: every enforcement map reachable from {strict,permissive,audit} x legal overrides (24 maps, a random (level, override) representative each) x every subset of simultaneously failing native validations {trust store authenticity, identity, expiry, certificate time, revocation} (quick) resp. the full product {anchor found, load error, not anchored} x identity x expired x certificate time x revocation {ok, revoked, unknown, validator error} (thorough) x plugin situation {none, not installed, version too low, no verification capability, trusted-identity, revocation, both} x verdicts {success, failure, missing} x critical attributes {none, processed, unprocessed}; the cells that differ only in the map form a group on which monotonicity of acceptance is checked directly. Family random: malformed plugin headers, blank names, missing manager, metadata error, invalid versions, capability orders with foreign capabilities, plugin errors, nil verdict entries, non-critical attributes, integer-labelled critical attributes (COSE), corrupted envelopes, both envelope formats. Family versions: (plugin version, demanded minimum) pairs around SemVer precedence. Family corpus: the fixed defects and the known finding. Family illegal: level/override combinations GetVerificationLevel must refuse. Family duplicates: a verification capability declared several times (outside wf_sc; judged by the contract-free oracle spec_all). Family revshape: validator answers with a result too few / too many / a nil entry (fix d78db00) under enforce, log, skip and with a revocation plugin. Family revchain: the bad / non-revokable revocation status sits on the intermediate or root certificate (the verdict depends on every certificate of the chain). non-trivial = at least one failed validation or a plugin header / extended attribute present; distinct = distinct scenario tuples"
 	w.Assumptions = []string{
 		"plugin metadata lists each verification capability at most once (wf_sc): needed only for the clause 'each result type at most once, in the fixed order'; the acceptance rule, monotonicity, what is performed / asked and the truthfulness of the results are proved and checked without it (families random and duplicates)",
 		"validity and order of the plugin version / demanded minimum are computed inside Coq from the version strings by C20's model of internal/semver.IsValid and x/mod/semver.Compare (C02_Versions.plugin_of, minver_valid_of); family versions holds the pairs around SemVer precedence",
@@ -444,6 +444,15 @@ func run(a *Args) error {
 				case 2:
 					r = revresult.ResultUnknown
 				}
+			}
+			// the verdict must depend on EVERY certificate of the chain, not on the leaf only
+			switch {
+			case s.RevMode == 7 && i == 1, s.RevMode == 8 && i == 2:
+				r = revresult.ResultUnknown
+			case s.RevMode == 9 && i == 1, s.RevMode == 11 && i == 2:
+				r = revresult.ResultRevoked
+			case s.RevMode == 10 && i > 0, s.RevMode == 11 && i == 0:
+				r = revresult.ResultNonRevokable
 			}
 			results = append(results, &revresult.CertRevocationResult{Result: r})
 		}
@@ -736,10 +745,10 @@ func run(a *Args) error {
 			otherT = append(otherT, CPair(CStr(o.k), CBool(o.c)))
 		}
 		sc := CApp("mk_sc", CBool(s.Integrity), s.Plugin.coq(), s.MinVer.coq(), minValid, CList(otherT), CBool(s.NonString),
-			CN(int64(s.Auth)), CBool(s.Identity), CBool(s.Expired), CBool(s.TsOK), CBool(s.RevMode == 0), pm, presp)
+			CN(int64(s.Auth)), CBool(s.Identity), CBool(s.Expired), CBool(s.TsOK), CBool(revOK(s.RevMode)), pm, presp)
 		in := CApp("mk_input", CStr(s.Level), CMap(s.Override), sc)
 		term := CApp("mk_case", CN(my), in, obs)
-		nontriv := s.Plugin.State != aAbsent || s.MinVer.State != aAbsent || s.Auth != 0 || !s.Identity || s.Expired || !s.TsOK || s.RevMode != 0 ||
+		nontriv := s.Plugin.State != aAbsent || s.MinVer.State != aAbsent || s.Auth != 0 || !s.Identity || s.Expired || !s.TsOK || !revOK(s.RevMode) ||
 			len(s.OtherCrit) > 0 || len(s.OtherNon) > 0 || s.NonString || !s.Integrity
 		key := fmt.Sprintf("%+v", *s)
 		if i := strings.Index(key, "ObsErr"); i > 0 {
@@ -759,7 +768,7 @@ func run(a *Args) error {
 		w.Count("revocation", fmt.Sprint(s.RevMode))
 		w.Count("built", fmt.Sprint(s.ObsBuilt))
 		nf := 0
-		for _, b := range []bool{s.Auth != 0, !s.Identity, s.Expired, !s.TsOK, s.RevMode != 0} {
+		for _, b := range []bool{s.Auth != 0, !s.Identity, s.Expired, !s.TsOK, !revOK(s.RevMode)} {
 			if b {
 				nf++
 			}
@@ -1405,11 +1414,24 @@ func run(a *Args) error {
 		}
 	}
 
+	// 11. the revocation verdict depends on every certificate of the chain (GoLite mutant "unknown status
+	// tolerated on CA certificates" was not found by inputs whose bad status sits on the leaf only)
+	for _, rm := range []int{7, 8, 9, 10, 11} {
+		for _, l := range []lv{{name: "strict"}, {name: "permissive"}, {name: "audit", ov: map[string]string{"revocation": "enforce"}}} {
+			s := base("revchain", l)
+			s.RevMode = rm
+			exec(s, nil)
+		}
+	}
+
 	w.Set("frame_checks_caller_owned_objects", frameChecked)
 	w.Set("monotonicity_pairs_checked_on_implementation", monoPairs)
 	w.Set("monotonicity_violations_on_implementation", monoViol)
 	return w.Close()
 }
+
+// revOK: does the scripted validator answer make the native revocation validation pass?
+func revOK(mode int) bool { return mode == 0 || mode == 10 }
 
 func vtypeCoq(t trustpolicy.ValidationType) string {
 	switch t {
